@@ -550,7 +550,7 @@ def op_to_wire(op):
         return ["$dup", "$" + op[1], "$" + op[2]]
     if k in ("immut", "prune"):
         return ["$" + k, "$" + op[1], "$" + op[2]]
-    if k in ("good", "iszero", "uniform", "liveok", "inv", "singlepath", "hastmpl", "nobins", "knownctype"):
+    if k in ("good", "iszero", "uniform", "uniformt", "liveok", "inv", "singlepath", "hastmpl", "nobins", "knownctype"):
         return ["$" + k, "$" + op[1]]
     if k in ("samebase", "same", "compat", "eqcontent"):
         return ["$" + k, "$" + op[1], "$" + op[2]]
